@@ -50,13 +50,27 @@ def _job(args):
     reg = registry()
     c = reg.contracts[idx]
     t0 = time.time()
+    import signal
+
+    class Budget(Exception):
+        pass
+
+    def on_alarm(signum, frame):
+        raise Budget()
+    budget = int(os.environ.get('PYVC_FN_BUDGET', '300' if not both else '1500'))
+    signal.signal(signal.SIGALRM, on_alarm)
+    signal.alarm(budget)
     try:
         r = verify(c, target, make_engine_factory(c.schema), seed=seed, timeout_ms=timeout_ms, both=both)
         d = r.to_json()
+    except Budget:
+        d = {'target': target, 'status': 'unverifiable', 'reason': 'time budget of %d s for one function exhausted (path explosion or slow solver)' % budget,
+             'obligations': [], 'paths': 0, 'feasible_paths': 0, 'src_hash': '', 'assumed': [], 'inlined': [], 'callees': [], 'time_s': budget, 'stats': {}}
     except Exception as e:      # engine crash
         import traceback
         d = {'target': target, 'status': 'error', 'reason': '%s\n%s' % (e, traceback.format_exc()), 'obligations': [],
              'paths': 0, 'feasible_paths': 0, 'src_hash': '', 'assumed': [], 'inlined': [], 'callees': [], 'time_s': 0, 'stats': {}}
+    signal.alarm(0)
     d['solver'] = dict(smt.SOLVER_STATS)
     d['contract'] = c.target
     d['props'] = c.props
